@@ -47,6 +47,54 @@ def opShRun : Op := do
        | none => ["-1", "-1"]
        | some (acc, _, t) => [if acc then "1" else "0", toString t])))
 
-def tableK : List (String × Op) := [("shrun", opShRun)]
+/-- `ehrun N n K mass dt x0 v0 rho0 state t0  elec0  (elec diags coeff zeta)×K` → per step: x v rho state potential -/
+def opEhRun : Op := do
+  let N ← nat
+  let n ← nat
+  let K ← nat
+  let m ← vec n
+  let dt ← flt
+  let x0 ← vec n
+  let v0 ← vec n
+  let rho0 ← ctab N N
+  let st ← fin N
+  let t0 ← flt
+  let e0 ← elecP N n
+  let inps ← listOf K (stepInP N n)
+  let s0 : SH Float N n := ⟨Vec.ofFn x0, Vec.ofFn v0, Vec.ofFn v0, rho0, st, t0, 0⟩
+  let rs := ehRun m dt e0 s0 inps
+  pure (rs.flatMap (fun r =>
+    oVec r.1.x.get ++ oVec r.1.v.get ++ oCTab r.1.rho ++ [toString r.1.state.val, oF r.2]))
+
+/-- `cumrun N n K mass dt x0 v0 rho0 state t0 zeta0  elec0  (elec diags coeff zeta u newZeta)×K`
+    → per step: x v rho state event target prob_cum zeta -/
+def opCumRun : Op := do
+  let N ← nat
+  let n ← nat
+  let K ← nat
+  let m ← vec n
+  let dt ← flt
+  let x0 ← vec n
+  let v0 ← vec n
+  let rho0 ← ctab N N
+  let st ← fin N
+  let t0 ← flt
+  let z0 ← flt
+  let e0 ← elecP N n
+  let inps ← listOf K (do
+    let i ← stepInP N n
+    let u ← flt
+    let nz ← flt
+    pure (i, (⟨u, nz⟩ : CumIn Float)))
+  let s0 : SH Float N n := ⟨Vec.ofFn x0, Vec.ofFn v0, Vec.ofFn v0, rho0, st, t0, 0⟩
+  let rs := cumRun m dt e0 (s0, ⟨0.0, z0⟩) inps
+  pure (rs.flatMap (fun r =>
+    let s := r.1.1
+    oVec s.x.get ++ oVec s.v.get ++ oCTab s.rho ++ [toString s.state.val] ++
+      (match r.2 with
+       | none => ["-1", "-1"]
+       | some (acc, _, t) => [if acc then "1" else "0", toString t]) ++ [oF r.1.2.probCum, oF r.1.2.zeta]))
+
+def tableK : List (String × Op) := [("shrun", opShRun), ("ehrun", opEhRun), ("cumrun", opCumRun)]
 
 end Mud.Exec
